@@ -54,6 +54,27 @@ def exact_alloc_programs():
     return progs
 
 
+def chain_alloc_programs(tier):
+    """every typed chain of length <= 2 with captured operands and `~` before none / the last / every operator (C11's chain family,
+    iterator adaptors left open at a step boundary included): the macro evaluation performs EXACTLY as many heap allocations as the
+    documented method chain (logging switched off on both sides)"""
+    from . import fam_captures
+
+    progs, _ = fam_captures.chain_programs(tier)
+    out = []
+    for p in progs:
+        if not p.id.endswith("/b2"):
+            continue
+
+        def wrap(body):
+            head, fmt = body.rsplit(";\n", 1)
+            assert head.startswith("let x = ")
+            return "let (x, __n) = count_allocs(|| %s);\nlet __s = %s;\nformat!(\"{} allocations={}\", __s, __n)" % (head[len("let x = "):], fmt)
+
+        out.append(Prog("allocchain/" + p.id, wrap(p.ref), wrap(p.mac), p.rows, "Value", meta=p.meta))
+    return out
+
+
 def tok_program(mac, ds, rich):
     """profile program over the move-only, non-Clone, drop-logging token type"""
     is_try, is_async = mac in dsl.TRY, mac in dsl.ASYNC
